@@ -96,6 +96,8 @@ def show(t, depth=0):
         return f"store({show(t.obj, d)}[{show(t.idx, d)}]={show(t.val, d)})"
     if o == "comp":
         return f"comp({show(t.elt, d)} for {show(t.src, d)})"
+    if o == "grow":
+        return f"{show(t.obj, d)}.{t.how}({show(t.val, d)})"
     if o == "unknown":
         return f"?{t.reason}"
     if o == "ifexp":
@@ -161,6 +163,32 @@ def _has_exit(stmts):
     return False
 
 
+def _mutated_local(n):
+    """name of the local container grown by an expression statement `xs.append(e)` (see Evaluator._local_mutation)"""
+    if isinstance(n, ast.Call) and isinstance(n.func, ast.Attribute) and isinstance(n.func.value, ast.Name):
+        if n.func.attr in ("append", "extend", "add", "update") and len(n.args) == 1 and not n.keywords:
+            return n.func.value.id
+    return None
+
+
+def _only_mutated(stmts, names):
+    """names that are grown by method calls but never assigned in stmts"""
+    assigned = set()
+    for st in stmts:
+        for n in ast.walk(st):
+            if isinstance(n, ast.Name) and isinstance(n.ctx, ast.Store):
+                assigned.add(n.id)
+            elif isinstance(n, (ast.FunctionDef, ast.ClassDef)):
+                assigned.add(n.name)
+            elif isinstance(n, (ast.Subscript, ast.Attribute)) and isinstance(n.ctx, ast.Store):
+                b = n
+                while isinstance(b, (ast.Subscript, ast.Attribute)):
+                    b = b.value
+                if isinstance(b, ast.Name):
+                    assigned.add(b.id)
+    return {nm for nm in names if nm not in assigned}
+
+
 def _assigned_names(stmts):
     out = []
 
@@ -191,6 +219,9 @@ def _assigned_names(stmts):
                     tgt(t)
             elif isinstance(st, (ast.AugAssign, ast.AnnAssign)):
                 tgt(st.target)
+            elif isinstance(st, ast.Expr) and _mutated_local(st.value) is not None:
+                if _mutated_local(st.value) not in out:
+                    out.append(_mutated_local(st.value))
             elif isinstance(st, (ast.For,)):
                 tgt(st.target)
                 walk(st.body)
@@ -474,6 +505,7 @@ class Evaluator:
                 v = self.ev(st.value, sc, mod)
                 self.effects.append(("expr", v))
                 sc.effects.append(v)
+                self._local_mutation(st.value, v, sc, mod)
             elif isinstance(st, ast.Assert):
                 c = self.ev(st.test, sc, mod)
                 self.effects.append(("assert", c))
@@ -511,6 +543,8 @@ class Evaluator:
                     sc.vars[name] = T("if", st, mod, cond=c, then=a, other=b)
             elif isinstance(st, (ast.For, ast.While)):
                 names = _assigned_names(st.body)
+                only_mutated = _only_mutated(st.body, names)
+                names = [nm for nm in names if not (nm in only_mutated and sc.lookup(nm) is None)]
                 init = {nm: sc.lookup(nm) for nm in names}
                 for nm in names:
                     sc.vars[nm] = T("loopvar", st, mod, name=nm, init=init[nm])
@@ -521,12 +555,13 @@ class Evaluator:
                 else:
                     it = None
                     cond = self.ev(st.test, sc, mod)
-                r = self.run(st.body, sc, mod)
+                r = self.run(_desugar_continue(list(st.body)), sc, mod)
                 for nm in names:
                     nxt = sc.vars.get(nm)
-                    sc.vars[nm] = T(
+                    lp = T(
                         "loop", st, mod, name=nm, init=init[nm] if init[nm] is not None else unknown(f"unbound:{nm}"), next=nxt, it=it, cond=cond
                     )
+                    sc.vars[nm] = _canon_loop(lp) if r is None else lp
                 if r is not None:
                     r2 = self.run(rest, sc, mod)
                     return T("if", st, mod, cond=unknown("loop-exit"), then=r, other=r2 if r2 is not None else const(None))
@@ -545,6 +580,20 @@ class Evaluator:
             else:
                 self.effects.append(("stmt", unknown("stmt:" + type(st).__name__, st)))
         return None
+
+    def _local_mutation(self, n, v, sc, mod):
+        """`xs.append(e)` / `xs.extend(e)` / `s.add(e)` / `d.update(e)` on a local name rebinds the name to a
+        `grow` term, so that a list built by an explicit loop has the same normal form as a comprehension."""
+        if not (isinstance(n, ast.Call) and isinstance(n.func, ast.Attribute) and isinstance(n.func.value, ast.Name)):
+            return
+        how = n.func.attr
+        if how not in ("append", "extend", "add", "update") or len(n.args) != 1 or n.keywords:
+            return
+        name = n.func.value.id
+        old = sc.lookup(name)
+        if old is None:
+            return
+        sc.vars[name] = T("grow", n, mod, obj=old, val=v.args[0], how=how)
 
     def _with_effects(self, v, sc, st, mod):
         if sc.effects:
@@ -720,6 +769,91 @@ class Evaluator:
         return r
 
 
+def _desugar_continue(stmts):
+    """[if c: ...; continue] + rest  ==  [if c: ... else: rest] inside a loop body."""
+    out = []
+    for i, st in enumerate(stmts):
+        if isinstance(st, ast.If):
+            body, orelse = list(st.body), list(st.orelse)
+            rest = stmts[i + 1 :]
+            if body and isinstance(body[-1], ast.Continue):
+                new = ast.If(test=st.test, body=_desugar_continue(body[:-1]) or [ast.Pass()], orelse=_desugar_continue(orelse + rest))
+                ast.copy_location(new, st)
+                new._parent = getattr(st, "_parent", None)
+                out.append(new)
+                return out
+            if orelse and isinstance(orelse[-1], ast.Continue):
+                new = ast.If(test=st.test, body=_desugar_continue(body + rest), orelse=_desugar_continue(orelse[:-1]) or [ast.Pass()])
+                ast.copy_location(new, st)
+                new._parent = getattr(st, "_parent", None)
+                out.append(new)
+                return out
+        out.append(st)
+    return out
+
+
+def _is_empty_container(t):
+    if t is None:
+        return None
+    if t.op in ("list", "set") and not t.elts:
+        return "ListComp" if t.op == "list" else "SetComp"
+    if t.op == "dict" and not t.items and not t.get("dstar"):
+        return "DictComp"
+    if t.op == "call" and t.fn.op == "ref" and not t.args and not t.kw and not t.get("dstar"):
+        return {"builtins.list": "ListComp", "builtins.dict": "DictComp", "builtins.set": "SetComp"}.get(t.fn.ref.qual)
+    return None
+
+
+def _merge_grow(t):
+    """if(c ? xs.append(a) : xs.append(b))  ==  xs.append(a if c else b)"""
+    if t.op != "if":
+        return t
+    a, b = _merge_grow(t.then), _merge_grow(t.other)
+    if a.op == "grow" and b.op == "grow" and a.how == b.how and a.obj is b.obj:
+        return T("grow", t.node, t.mod, obj=a.obj, how=a.how, val=T("if", t.node, t.mod, cond=t.cond, then=a.val, other=b.val))
+    if a.op == "store" and b.op == "store" and a.obj is b.obj and a.idx is b.idx:
+        return T("store", t.node, t.mod, obj=a.obj, idx=a.idx, val=T("if", t.node, t.mod, cond=t.cond, then=a.val, other=b.val))
+    if a is t.then and b is t.other:
+        return t
+    return T("if", t.node, t.mod, cond=t.cond, then=a, other=b)
+
+
+def _canon_loop(lp):
+    """A for-loop that only grows one fresh container by one element per iteration is the comprehension
+    `[elt for x in src if conds]` / `{k: v for ...}`: give both the same normal form (`comp`)."""
+    if lp.get("it") is None or lp.next is None:
+        return lp
+    kind = _is_empty_container(lp.init)
+    if kind is None:
+        return lp
+    conds = []
+    nxt = _merge_grow(lp.next)
+    while nxt.op == "if":
+        def is_self(t):
+            return t.op == "loopvar" and t.name == lp.name and t.node is lp.node
+        if is_self(nxt.other):
+            conds.append(nxt.cond)
+            nxt = nxt.then
+        elif is_self(nxt.then):
+            conds.append(T("un", nxt.cond.node, nxt.cond.mod, opname="Not", x=nxt.cond))
+            nxt = nxt.other
+        else:
+            return lp
+    def is_self(t):
+        return t.op == "loopvar" and t.name == lp.name and t.node is lp.node
+    if nxt.op == "grow" and is_self(nxt.obj) and nxt.how in ("append", "add") and kind in ("ListComp", "SetComp"):
+        elt = nxt.val
+    elif nxt.op == "store" and is_self(nxt.obj) and kind == "DictComp":
+        elt = T("tuple", nxt.node, nxt.mod, elts=[nxt.idx, nxt.val])
+    else:
+        return lp
+    # the element must not read the container under construction
+    for x in walk(elt):
+        if x.op == "loopvar" and x.name == lp.name and x.node is lp.node:
+            return lp
+    return T("comp", lp.node, lp.mod, elt=elt, src=lp.it, conds=conds, kind=kind, from_loop=True)
+
+
 def _flatten_pos(args):
     """f(a, *(b, *rest)) == f(a, b, *rest): splice starred tuple/list literals into the positional list."""
     out = []
@@ -778,6 +912,8 @@ def children(t):
         return [f["exc"]]
     if o == "store":
         return [f["obj"], f["idx"], f["val"]]
+    if o == "grow":
+        return [f["obj"], f["val"]]
     if o == "comp":
         return [f["elt"], f["src"]] + list(f["conds"])
     if o == "seq":
